@@ -102,6 +102,12 @@ def proof_obligations(pid, thorough):
                modules=modules, theorems=thms)
     if not thms:
         return res
+    try:
+        import gen_generators
+        gen_generators.main()      # regenerate the generator tables from the current /repo
+    except Exception as e:         # the translator no longer understands the source
+        res.update(ok=False, log="gen_generators failed: %r" % (e,), broken=["translator gen_generators.py: %r" % (e,)])
+        return res
     ok, out = vlib.lean_build(["ManifModel", "manif_model"] + modules)
     if not ok:
         res.update(ok=False, log=out[-6000:], broken=["lake build " + " ".join(modules)])
